@@ -505,6 +505,22 @@ def _check_precedence(ctx, spec, n, origin, rng):
         except Exception as e:
             ctx.violation('eval-undefined-name', f'undefined name {undefined!r} raised {type(e).__name__}: {e}', case)
         ctx.count('eval_calls')
+    # ... whatever the other names look like: several equally close candidates (names differing only in case, or by one character)
+    crowd = VectorContainer(spec.make())
+    for nm in ('YD_r', 'yd_r', 'Yd_r', 'C', 'c', 'alpha', 'alphb', 'alphc'):
+        crowd.add_variable(nm, base)
+    for undefined in ('yd_k_r', 'YD_R', 'cc', 'alphd', 'W', 'zz9'):
+        ctx.evaluation(('undef-crowd', spec.kind, n, undefined), nontrivial=True)
+        case = {'kind': 'undefined', 'span_kind': spec.kind, 'n': n, 'origin': origin, 'name': undefined, 'crowd': True}
+        try:
+            crowd.eval(f'C * 2 + {undefined}')
+            ctx.violation('eval-undefined-name', f'undefined name {undefined!r} did not raise', case)
+        except AttributeError as e:
+            if undefined not in str(e):
+                ctx.violation('eval-undefined-name', f'AttributeError does not name {undefined!r}: {e}', case)
+        except Exception as e:
+            ctx.violation('eval-undefined-name', f'undefined name {undefined!r} (variables {list(crowd.index)}) raised {type(e).__name__}: {e}', case)
+        ctx.count('eval_calls')
     # empty container
     e = VectorContainer(spec.make())
     try:
